@@ -169,13 +169,13 @@ def quick_groups():
 
 
 def gcc_groups():
-    """The GCC backend compiles every 1-instruction block of every program (~0.4 s each): a sub-lattice."""
+    """The GCC backend compiles every 1-instruction block of every program (3-20 s per program): a small sub-lattice."""
     return [
-        (singles("reg", ARITH[:3], CMPS[:2], JCCS[:4]), ["branch"], IN2),
-        (singles("memdirect", ["none"], CMPS[:2], JCCS[:4]), ["branch"], IN2),
-        (singles("meminplace", ["ADD $, 0x3"], CMPS[:2], JCCS[:3]), ["branch"], IN2),
-        (multis(["nested", "seq"], ["reg", "memdirect"], M1[:1], MIDS, M2[:2]), ALL3, IN2M),
-        (threes(["reg"], M1[:1], ["ADD $, 0x3"], M2[:1], M3), ALL3, IN2M),
+        (singles("reg", ARITH[:2], CMPS[:2], JCCS[:2]), ["branch"], IN2),
+        (singles("memdirect", ["none"], CMPS[:1], JCCS[:2]), ["branch"], IN2),
+        (singles("meminplace", ["ADD $, 0x3"], CMPS[:1], JCCS[:2]), ["branch"], IN2),
+        (multis(["nested"], ["reg"], M1[:1], MIDS, M2[:1]), ALL3, IN2M),
+        (threes(["reg"], M1[:1], ["ADD $, 0x3"], M2[:1], M3[:1]), ALL3, IN2M),
     ]
 
 
